@@ -41,7 +41,7 @@ META = dict(
 DT = [torch.float32, torch.float16, torch.bfloat16]
 WQ = ["qint8", "qfloat8", "qfloat8_e4m3fn", "qfloat8_e5m2", "qint4", "qint2"]
 AQ = [None, None, "qint8", "qfloat8"]
-UP = ["random", "random", "onehot", "transposed", "expanded", "zeros"]
+UP = ["random", "random", "onehot", "transposed", "expanded", "zeros", "const_scaled"]
 
 
 def upstream(r, kind, shape, wd):
@@ -49,6 +49,10 @@ def upstream(r, kind, shape, wd):
         return torch.from_numpy(r.standard_normal(shape)).to(wd)
     if kind == "zeros":
         return torch.zeros(shape, dtype=wd)
+    if kind == "const_scaled":
+        # what out.sum() under a loss scale sends back: one constant, possibly large (mixed-precision training scales the
+        # loss by 2^k); the float twin's gradients stay representable, sums taken in raw code units may not
+        return torch.full(shape, float(r.choice([1.0, 64.0, 1024.0])), dtype=wd)
     if kind == "onehot":
         g = torch.zeros(shape, dtype=wd)
         g.view(-1)[int(r.integers(g.numel()))] = 1.0
@@ -196,6 +200,8 @@ def run(ctx):
                 rank = int(rng.integers(1, 5))
                 xshape = {1: (fin,), 2: (int(rng.integers(1, 20)), fin), 3: (2, int(rng.integers(1, 6)), fin),
                           4: (2, 1, 3, fin)}[rank]
+                if rank == 2 and rng.random() < 0.12:
+                    xshape = (int(rng.choice([256, 1024])), fin)  # many rows: long sums in the weight gradient
                 if gen.int8pack_crash_class(wd, wq, fin, quantized_activations=aq is not None):
                     wq = "qfloat8"
             desc = dict(case=i, dtype=str(wd), weights=wq, activations=aq, conv=conv, bias=bias, frozen=frozen, upstream=upk,
